@@ -1729,7 +1729,60 @@ def sc_binop(u, V, rng, variant=None):
     return out
 
 
-SCENARIOS = [('clsmeth', sc_clsmeth), ('binop', sc_binop),
+def sc_genorder(u, V, rng, variant=None):
+    """generator with plain yields on BOTH sides of a `for ...: yield` loop, consumed by positional unpacking:
+    the i-th target gets the i-th yielded value (second campaign, seeded C02-m3)"""
+    H, M, T = 'H_%s' % u, 'M_%s' % u, 'T_%s' % u
+    return ['class %s:' % H, '    pass', 'class %s:' % M, '    pass', 'class %s:' % T, '    pass',
+            'def st_%s():' % u,
+            '    yield %s()' % H,
+            '    for it_%s in (%s(), %s()):' % (u, M, M),
+            '        yield it_%s' % u,
+            '    yield %s()' % T,
+            'r_%s_a, r_%s_b, r_%s_c, r_%s_d = st_%s()' % (u, u, u, u, u),
+            'def st2_%s():' % u,
+            '    yield %s()' % T,
+            '    yield %s()' % H,
+            '    for it2_%s in (%s(),):' % (u, M),
+            '        yield it2_%s' % u,
+            '    yield %s()' % H,
+            'r_%s_e, r_%s_f, r_%s_g, r_%s_h = st2_%s()' % (u, u, u, u, u)]
+
+
+def sc_elif(u, V, rng, variant=None):
+    """if / elif / else chains assigning one name: first test undecidable for jedi but true at run time, a later
+    `elif` with a constant false test; the name read after the chain (second campaign, seeded C02-m4)"""
+    D, S, X = 'D_%s' % u, 'S_%s' % u, 'X_%s' % u
+    falsy = (variant or {}).get('falsy') or (rng.choice(['0', "''"]) if rng else '0')
+    return ['class %s:' % D, '    pass', 'class %s:' % S, '    pass', 'class %s:' % X, '    pass',
+            'class Cfg_%s:' % u,
+            '    def __init__(self, level):',
+            '        self.level = level',
+            '    def deep(self):',
+            '        return self.level * 2 > 3',
+            'def mk_%s(cfg):' % u,
+            '    if cfg.deep():',
+            '        w = %s()' % D,
+            '    elif %s:' % falsy,
+            '        w = %s()' % X,
+            '    else:',
+            '        w = %s()' % S,
+            '    return w',
+            'r_%s_a = mk_%s(Cfg_%s(5))' % (u, u, u),
+            'r_%s_b = mk_%s(Cfg_%s(0))' % (u, u, u),
+            'def mk2_%s(cfg):' % u,
+            '    if %s:' % falsy,
+            '        w = %s()' % X,
+            '    elif cfg.deep():',
+            '        w = %s()' % D,
+            '    else:',
+            '        w = %s()' % S,
+            '    return w',
+            'r_%s_c = mk2_%s(Cfg_%s(5))' % (u, u, u),
+            'r_%s_d = mk2_%s(Cfg_%s(1))' % (u, u, u)]
+
+
+SCENARIOS = [('genorder', sc_genorder), ('elif', sc_elif), ('clsmeth', sc_clsmeth), ('binop', sc_binop),
              ('rebind', sc_rebind), ('closure', sc_closure), ('lambda', sc_lambda), ('generator', sc_generator), ('comprehension', sc_comprehension),
              ('decorator', sc_decorator), ('descriptors', sc_descriptors), ('magic', sc_magic), ('isinstance', sc_isinstance),
              ('annotation', sc_annotation), ('docstring', sc_docstring), ('inherit', sc_inherit), ('super_init', sc_super_init),
@@ -1740,7 +1793,8 @@ SCENARIOS = [('clsmeth', sc_clsmeth), ('binop', sc_binop),
 def gen_directed():
     """the directed families of round 2: one program per variant, seed independent (values cycle)"""
     out = []
-    for name, fn, variants in (('clsmeth', sc_clsmeth, CM_VARIANTS), ('binop', sc_binop, BIN_VARIANTS)):
+    for name, fn, variants in (('clsmeth', sc_clsmeth, CM_VARIANTS), ('binop', sc_binop, BIN_VARIANTS),
+                               ('genorder', sc_genorder, [None]), ('elif', sc_elif, [dict(falsy='0'), dict(falsy="''")])):
         for j, variant in enumerate(variants):
             cyc = [j]
 
